@@ -2917,3 +2917,113 @@ CATALOGUE['C07'] += [
       "               ssi_match=re.compile('(include|echo|exec)[ ]+[a-z]+=').match,",
       'C07.R11'),
 ]
+
+# ------------------------------------------------- refactoring wave 7 rules
+CATALOGUE['C06'] += [
+    V('template-derived pattern applied while compiling', 'DT_In.py',
+      """                        '=[0-9]+&+')
+
+        name, expr = name_param(args, 'in', 1)""",
+      """                        '=[0-9]+&+')
+                    if self.start_name_re.search(v):
+                        raise ParseError('start names itself', 'in')
+
+        name, expr = name_param(args, 'in', 1)""", 'C06.R1'),
+    V('silent: the batch regex built by a helper, stored only', 'DT_In.py',
+      """                    self.start_name_re = re.compile(
+                        '&+' +  # NOQA: W504
+                        ''.join(["[%s]" % c for c in v]) +  # NOQA: W504
+                        '=[0-9]+&+')
+""",
+      """                    start_re = _start_re(v)
+                    if start_re is not None:
+                        self.start_name_re = start_re
+"""),
+]
+CATALOGUE['C01'] += [
+    V('one piece is joined with nothing, several return the first',
+      '_DocumentTemplate.py',
+      """    l_ = len(rendered)
+    if l_ == 0:
+        return ''
+    elif l_ == 1:
+        return rendered[0]
+    return join_unicode(rendered, encoding=encoding)""",
+      """    if not rendered:
+        return ''
+    if len(rendered) >= 1:
+        return rendered[0]
+    return join_unicode(rendered, encoding=encoding)""", 'C01.R3'),
+    V('silent: sizes tested the other way round', '_DocumentTemplate.py',
+      """    l_ = len(rendered)
+    if l_ == 0:
+        return ''
+    elif l_ == 1:
+        return rendered[0]
+    return join_unicode(rendered, encoding=encoding)""",
+      """    if len(rendered) > 1:
+        return join_unicode(rendered, encoding=encoding)
+    return rendered[0] if rendered else ''"""),
+]
+CATALOGUE['C19'] += [
+    V('join_unicode joins a sorted copy', '_DocumentTemplate.py',
+      """        rendered = list(rendered)
+        for i in range(len(rendered)):""",
+      """        rendered = sorted(rendered, key=len)
+        for i in range(len(rendered)):""", 'C19.R3'),
+    V('silent: join_unicode decodes in a comprehension',
+      '_DocumentTemplate.py',
+      """        rendered = list(rendered)
+        for i in range(len(rendered)):
+            if isinstance(rendered[i], bytes):
+                rendered[i] = rendered[i].decode(encoding)
+        return ''.join(rendered)""",
+      """        return ''.join([p.decode(encoding) if isinstance(p, bytes)
+                        else p for p in rendered])"""),
+]
+CATALOGUE['C13'] += [
+    V('cmp() is not three-way any more', 'DT_In.py',
+      "    return (a > b) - (a < b)", "    return (a > b) - (a <= b)",
+      'C13.R5'),
+    V('silent: cmp() spelled with conditionals', 'DT_In.py',
+      "    return (a > b) - (a < b)",
+      "    if a < b:\n        return -1\n    return 1 if a > b else 0"),
+]
+CATALOGUE['C05'] += [
+    V('silent: getter helper with early return', 'DT_Util.py',
+      """def careful_getattr(md, inst, name, default=_marker):
+
+    get = md.guarded_getattr
+    if get is None:
+        get = getattr
+""",
+      """def _getter(md):
+    guard = md.guarded_getattr
+    if guard is None:
+        return getattr
+    return guard
+
+
+def careful_getattr(md, inst, name, default=_marker):
+
+    get = _getter(md)
+"""),
+    V('getter helper falls back when the guard is present', 'DT_Util.py',
+      """def careful_getattr(md, inst, name, default=_marker):
+
+    get = md.guarded_getattr
+    if get is None:
+        get = getattr
+""",
+      """def _getter(md):
+    guard = md.guarded_getattr
+    if guard is not None:
+        return getattr
+    return guard
+
+
+def careful_getattr(md, inst, name, default=_marker):
+
+    get = _getter(md)
+""", 'C05.R1'),
+]
